@@ -607,7 +607,18 @@ func (e *execEngine) buildTx(n *node, t []string) (pb.Transaction, bool, error) 
 		if len(t) != 4 {
 			return nil, false, fmt.Errorf("bad xfer")
 		}
-		return n.xferTx(t[1], resolveAddr(t[2]), t[3]), true, nil
+		amt := t[3]
+		if strings.HasPrefix(amt, "all-") {
+			// all-<k>: the sender's balance as the block begins, minus k (to leave an account with less than one fee whatever it
+			// earned or paid so far)
+			k, ok := new(big.Int).SetString(amt[4:], 10)
+			if !ok {
+				return nil, false, fmt.Errorf("bad xfer amount")
+			}
+			bal := n.ldg.GetBalance(acct(t[1]).addr)
+			amt = new(big.Int).Sub(bal, k).String()
+		}
+		return n.xferTx(t[1], resolveAddr(t[2]), amt), true, nil
 	case "eth": // eth signer to value gaslimit gasprice : a signed legacy Ethereum transaction (plain value transfer through the EVM)
 		if len(t) != 6 {
 			return nil, false, fmt.Errorf("bad eth")
